@@ -25,6 +25,13 @@ Round 4: a requested run-space dry run reaches its gate - the parser stores a va
 Defect 4eea17b: an unreadable / undecodable run-space source file reaches the `except` clauses around the
    expand_run_space call as a class they map to the configuration-error exit (C17-D2/C08-D4-read-errors-converted:
    C08's exception-propagation rule re-applied; the classes are read from those except clauses, so the two agree).
+Round 5: the configuration is complete when it is parsed - no write into `config` (directly, through a local naming a
+   part of it, or by a helper that writes into its parameter: --set overrides) is reachable after
+   parse_pipeline_config (C17-D1-config-complete-before-parse); the identity-compared `object()` marker for "no
+   default" reaches the required-key analysis uncopied - no deep copy in the returned-value flow of the functions that
+   hand it on (C17-D4-absence-sentinel-survives-copies); every placeholder a template's construction-time check
+   hands on has passed a test admitting plain identifier-like names only, which is what `template.format(**values)`
+   can resolve as a keyword (C17-D4-template-placeholders-renderable).
 """
 from __future__ import annotations
 
@@ -226,6 +233,16 @@ def run(repo: Repo, R: Report) -> None:
             holder = t.value.id
             if holder == CTX or not _feeds_config(fn, holder, CONFIG):
                 continue
+            # flow-sensitively: a name that is re-used, at this store, for a mapping unrelated to the configuration
+            # (every definition reaching the store is a fresh value that reads nothing of it) is not a section
+            a_nodes = g.nodes_for(a)
+            r_defs = [d for d in (reaching_defs(g, holder, a_nodes[0]) if a_nodes else []) if d.kind == "stmt" and getattr(d.ast, "value", None) is not None]
+            if r_defs and not any(isinstance(b.targets[0], ast.Subscript) and dotted_name(b.targets[0].value) == CONFIG and isinstance(b.value, ast.Name) and b.value.id == holder for b in assigns):
+                def _reads_config(v: ast.AST) -> bool:
+                    names = {x.id for x in ast.walk(v) if isinstance(x, ast.Name)}
+                    return CONFIG in names or any(nm != holder and _feeds_config_depth(fn, nm, CONFIG, 0) for nm in names)
+                if not any(_reads_config(d.ast.value) for d in r_defs):
+                    continue
             n_flag_stores += 1
             ok = attached_at(holder, a) or any(isinstance(b.targets[0], ast.Subscript) and dotted_name(b.targets[0].value) == CONFIG and isinstance(b.value, ast.Name) and b.value.id == holder and b.lineno > a.lineno for b in assigns)
             R.check(ok, r_attach, CLI, "_run", norm(a), f"the flag value is written into `{holder}`, which is not (a part of) the configuration that gets parsed: the flag is silently ignored and the gate it controls stays open", a.lineno)
@@ -264,6 +281,7 @@ def run(repo: Repo, R: Report) -> None:
         R.check(not missing_paths, r_attach, CLI, "_run", f"run-space flags are applied to the block the parser reads ({sorted('.'.join(p) for p in parser_paths)})", f"the parser takes the run-space block from {['.'.join(p) for p in missing_paths]} when the top-level one is absent, but the CLI never looks there before writing the flag into a block of its own: with a run space declared at {['.'.join(p) for p in missing_paths]}, `--run-space-max-runs` / `--run-space-dry-run` create a top-level block that shadows it - the declared plan vanishes and an over-cap configuration is executed", fn.lineno)
     parse_call = next((c for c in calls_in(fn) if call_attr(c) == "parse_pipeline_config"), None)
     R.check(parse_call is not None and parse_call.args and dotted_name(parse_call.args[0]) == CONFIG, r_attach, CLI, "_run", "parse_pipeline_config(config, ...)", "the parsed object is not the merged configuration", fn.lineno)
+    config_complete_rule(repo, R, mod, fn, g, CONFIG)
 
     # ---------------------------------------------------------------- D2 exit codes
     r_codes = R.rule("C17-D2-exit-codes", "EXIT_* constants carry the documented numbers; every return of _run is one of them (or exit_code); helpers exit with them", 10)
@@ -341,6 +359,8 @@ def run(repo: Repo, R: Report) -> None:
     cap_value_rule(repo, R, fn)
     dry_run_request_rule(repo, R, fn)
     position_merge_rule(repo, R)
+    absence_sentinel_rule(repo, R)
+    template_placeholder_rule(repo, R)
     # the expansion gate rejects an unreadable source with the configuration-error exit: every failure of reading a
     # source file reaches the `except` clauses around expand_run_space as a class they map (C08's rule, CLI view)
     from . import c08
@@ -902,10 +922,11 @@ def _run_flow(fn: ast.AST, seeds: List[ast.AST]) -> Set[str]:
     for s in seeds:
         live |= _loads(s)
     changed = True
+    relevant = [n for n in walk_no_nested(fn) if isinstance(n, (ast.Assign, ast.AnnAssign, ast.AugAssign, ast.Call, ast.For, ast.AsyncFor, ast.comprehension))]
     while changed:
         changed = False
         before = len(live)
-        for n in walk_no_nested(fn):
+        for n in relevant:
             if isinstance(n, (ast.Assign, ast.AnnAssign, ast.AugAssign)) and getattr(n, "value", None) is not None:
                 tgts = n.targets if isinstance(n, ast.Assign) else [n.target]
                 for t in tgts:
@@ -2100,3 +2121,535 @@ def position_merge_rule(repo: Repo, R: Report) -> None:
                     covered |= roots
             loose = [o for o in operands if not (_len_flow(o, binds)[0] & covered)]
             R.check(not loose, r, RUN_SPACE, qn, norm(node)[:100], (f"{what}, and no raising test that compares lengths with each other covers `{norm(loose[0])[:50]}` before it: a by_position run space whose sides differ in length (documented: 'Mismatched lengths under any zip semantics' is a configuration error) is no longer rejected by expand_run_space - `_run`'s `return EXIT_CONFIG_ERROR` never fires, the run space is cut down to the shorter side and executed (exit 0, sink output, trace files); the dry runs report the invalid plan as valid" if loose else ""), getattr(node, "lineno", 0))
+
+
+# ---------------------------------------------------------------------------------------------
+# D1 (round 5): the configuration is complete when it is parsed - nothing is written into it afterwards
+# ---------------------------------------------------------------------------------------------
+_CONTAINER_MUTATORS = {"update", "setdefault", "pop", "popitem", "clear", "append", "extend", "insert", "remove", "sort", "reverse", "__setitem__", "__delitem__"}
+
+
+def _container_root(e: Optional[ast.AST]) -> Optional[str]:
+    """The local a (nested) container expression is taken from: `c`, `c[k]`, `c.get(k)`, `c.setdefault(k, d)[j]`, `c.attr` -> `c`."""
+    while e is not None:
+        if isinstance(e, ast.Name):
+            return e.id
+        if isinstance(e, (ast.Subscript, ast.Attribute, ast.Starred)):
+            e = e.value
+        elif isinstance(e, ast.Call) and isinstance(e.func, ast.Attribute) and e.func.attr in ("get", "setdefault") and e.args:
+            e = e.func.value
+        elif isinstance(e, ast.IfExp):
+            a, b = _container_root(e.body), _container_root(e.orelse)
+            return a if a is not None else b
+        elif isinstance(e, ast.NamedExpr):
+            e = e.value
+        else:
+            return None
+    return None
+
+
+def _parts_of(fn: ast.AST, roots: Set[str]) -> Set[str]:
+    """*roots* plus the locals of *fn* that name (a part of) one of them: `x = c`, `x = c[k]`, `x = c.get(k)`,
+    `x = c.setdefault(k, {})`, `x = x[k]` ... - a store through such a local is a store into the object."""
+    parts = set(roots)
+    changed = True
+    while changed:
+        changed = False
+        for n in walk_no_nested(fn):
+            tgt, val = None, None
+            if isinstance(n, ast.Assign) and len(n.targets) == 1 and isinstance(n.targets[0], ast.Name):
+                tgt, val = n.targets[0].id, n.value
+            elif isinstance(n, ast.AnnAssign) and isinstance(n.target, ast.Name) and n.value is not None:
+                tgt, val = n.target.id, n.value
+            elif isinstance(n, ast.NamedExpr):
+                tgt, val = n.target.id, n.value
+            if tgt is None or tgt in parts:
+                continue
+            # a fresh copy (`dict(c)`, `c.copy()`, a literal) is not a part: only access chains are followed
+            if _container_root(val) in parts:
+                parts.add(tgt)
+                changed = True
+    return parts
+
+
+def _writes_into(repo: Repo, mod, fn: ast.AST, roots: Set[str], depth: int = 0, _seen: Optional[Set[Tuple[int, Tuple[str, ...]]]] = None) -> List[Tuple[ast.AST, str]]:
+    """(node, description) for every construct of *fn* that modifies an object named by *roots* (or a part of
+    it): subscript stores / deletes, mutating container methods, and calls that hand it to a function of the
+    package which writes into the corresponding parameter (followed three levels)."""
+    _seen = _seen if _seen is not None else set()
+    key = (id(fn), tuple(sorted(roots)))
+    if key in _seen or depth > 3:
+        return []
+    _seen.add(key)
+    parts = _parts_of(fn, roots)
+    out: List[Tuple[ast.AST, str]] = []
+    for n in walk_no_nested(fn):
+        if isinstance(n, (ast.Assign, ast.AugAssign, ast.AnnAssign, ast.Delete)):
+            tgts = n.targets if isinstance(n, (ast.Assign, ast.Delete)) else [n.target]
+            for t in tgts:
+                for x in ([t] if not isinstance(t, (ast.Tuple, ast.List)) else t.elts):
+                    if isinstance(x, (ast.Subscript, ast.Attribute)) and _container_root(x) in parts:
+                        out.append((n, f"store `{norm(n)[:70]}`"))
+        elif isinstance(n, ast.Call):
+            f = n.func
+            if isinstance(f, ast.Attribute) and f.attr in _CONTAINER_MUTATORS and _container_root(f.value) in parts:
+                out.append((n, f"`{norm(n)[:70]}`"))
+                continue
+            passed = [(i, None, a) for i, a in enumerate(n.args) if _container_root(a) in parts] + [(None, k.arg, k.value) for k in n.keywords if k.arg and _container_root(k.value) in parts]
+            if not passed:
+                continue
+            for m, node in repo.resolve_call(mod, n):
+                if not isinstance(node, FuncNode):
+                    continue
+                params = [a.arg for a in node.args.posonlyargs + node.args.args]
+                if params and params[0] in ("self", "cls") and isinstance(f, ast.Attribute):
+                    params = params[1:]
+                names = {params[i] for i, _k, _a in passed if i is not None and i < len(params)} | {k for _i, k, _a in passed if k}
+                if not names:
+                    continue
+                inner = _writes_into(repo, m, node, names, depth + 1, _seen)
+                if inner:
+                    out.append((n, f"`{norm(n)[:70]}` ({node.name} writes into its parameter: {inner[0][1]})"))
+                    break
+    return out
+
+
+def config_complete_rule(repo: Repo, R: Report, mod, fn: ast.AST, g: CFG, CONFIG: str) -> None:
+    """All gates of `_run` look at the *parsed* configuration (`parse_pipeline_config(config)` copies and converts
+    the run-space block, the trace / execution sections and each node entry).  What the user asked for - the
+    file, `--set` overrides, the flag-driven sections, a run-space file - is therefore only gated if it is in
+    `config` when the parser reads it: a write into `config` that can happen after the parse is either lost or
+    seen through an accidental alias only, and the gates decide on a configuration the user did not ask for."""
+    r = R.rule("C17-D1-config-complete-before-parse", "every statement of _run that writes into the configuration object (directly, through a local naming a part of it, or by handing it to a helper that writes into its parameter: --set overrides, flag-driven sections, run-space file) is executed before parse_pipeline_config(config) reads it - none is reachable after the parse", 2)
+    parse_nodes = [n for n in g.nodes if n.part is not None and any(call_attr(c) == "parse_pipeline_config" for c in calls_in(n.part))]
+    if not parse_nodes:
+        raise AnalysisError("_run: parse_pipeline_config(...) not found in the control-flow graph")
+    after: Set[int] = set()
+    for pn in parse_nodes:
+        after |= set(g.reach([t for t, lab in g.succ[pn.id] if lab not in (EXC, BASE)]))
+    sites = _writes_into(repo, mod, fn, {CONFIG})
+    seen_stmt: Set[int] = set()
+    for node, what in sites:
+        st = node if isinstance(node, ast.stmt) else stmt_of(node)
+        if id(st) in seen_stmt:
+            continue
+        seen_stmt.add(id(st))
+        ids = g.nodes_for(st)
+        if not ids:
+            continue
+        late = [i for i in ids if i in after]
+        if late:
+            # the store goes through a local: flow-sensitively, does a definition that makes it (a part of) the
+            # configuration reach this statement?  (a name re-used for a fresh mapping later on is not one)
+            parts = _parts_of(fn, {CONFIG})
+            holders = {_container_root(x) for x in ast.walk(node) if isinstance(x, (ast.Subscript, ast.Attribute, ast.Name))} & parts
+            if holders and CONFIG not in holders:
+                def reaches_as_part(h: str, at: int) -> bool:
+                    defs = reaching_defs(g, h, at)
+                    return not defs or any(_container_root(getattr(d.ast, "value", None)) in parts for d in defs if d.kind == "stmt") or any(d.kind != "stmt" for d in defs)
+                late = [i for i in late if any(reaches_as_part(h, i) for h in holders)]
+        R.check(not late, r, CLI, "_run", norm(st)[:100], f"{what} modifies the configuration after parse_pipeline_config has read it: the parsed configuration (run-space block, cap, dry-run request, trace / execution sections, node entries - all copied or converted by the parser) does not contain this change, so validation, the run-space cap, the dry-run gates and the missing-key check decide on a configuration without it - `--set run_space.dry_run=true` / `--set run_space.max_runs=N` / an override that makes the pipeline invalid are silently ignored and the runs execute" if late else "", getattr(st, "lineno", fn.lineno), g.path_to(g.reach([parse_nodes[0].id]), late[0]) if late else None)
+    # every CLI option that carries configuration content reaches the configuration at all: args.overrides
+    ov = [n for n in walk_no_nested(fn) if isinstance(n, (ast.For, ast.AsyncFor)) and dotted_name(n.iter) == "args.overrides"]
+    if ov:
+        applied = any(any(node is x or any(node is y for y in ast.walk(x)) for x in lp.body) for lp in ov for node, _w in sites)
+        R.check(applied, r, CLI, "_run", "--set overrides are written into the configuration", "the loop over args.overrides no longer writes into the configuration object that is parsed: the overrides are ignored by every gate", ov[0].lineno)
+    else:
+        R.ok(r, CLI, "_run", "(no --set loop in _run)", "", fn.lineno)
+
+
+# ---------------------------------------------------------------------------------------------
+# D4 (round 5): "this parameter has no default" survives on its way to the required-key analysis
+# ---------------------------------------------------------------------------------------------
+BUILDER = "semantiva/inspection/builder.py"
+_DEEP_COPIERS = {"deepcopy": "copy.deepcopy", "asdict": "dataclasses.asdict", "astuple": "dataclasses.astuple", "loads": "pickle.loads"}
+
+
+def _module_constant(repo: Repo, mod, name: str, depth: int = 0) -> Optional[Tuple[object, ast.AST]]:
+    """The module-level assignment a global / imported *name* of *mod* refers to."""
+    for st in mod.tree.body:
+        if isinstance(st, ast.Assign) and any(isinstance(t, ast.Name) and t.id == name for t in st.targets):
+            return mod, st
+        if isinstance(st, ast.AnnAssign) and isinstance(st.target, ast.Name) and st.target.id == name and st.value is not None:
+            return mod, st
+    target = mod.imports.get(name)
+    if target and depth < 4 and "." in target:
+        owner, _, attr = target.rpartition(".")
+        m2 = repo.by_dotted.get(owner)
+        if m2 is not None and m2 is not mod:
+            return _module_constant(repo, m2, attr, depth + 1)
+    return None
+
+
+def _is_plain_object_sentinel(st: ast.AST) -> bool:
+    v = getattr(st, "value", None)
+    return isinstance(v, ast.Call) and isinstance(v.func, ast.Name) and v.func.id == "object" and not v.args and not v.keywords
+
+
+def _value_roots(fn: ast.AST) -> List[ast.AST]:
+    """Expressions of *fn* whose value can become (part of) what it returns / yields."""
+    seeds = [x.value for x in walk_no_nested(fn) if isinstance(x, (ast.Return, ast.Yield, ast.YieldFrom)) and x.value is not None]
+    if not seeds:
+        return []
+    live = _run_flow(fn, seeds)
+    roots: List[ast.AST] = list(seeds)
+    for n in walk_no_nested(fn):
+        if isinstance(n, (ast.Assign, ast.AnnAssign, ast.AugAssign)) and getattr(n, "value", None) is not None:
+            tgts = n.targets if isinstance(n, ast.Assign) else [n.target]
+            if any((isinstance(t, ast.Name) and t.id in live) or (isinstance(t, (ast.Subscript, ast.Attribute)) and _root_name(t) in live) or (isinstance(t, (ast.Tuple, ast.List)) and set(_target_names(t)) & live) for t in tgts):
+                roots.append(n.value)
+        elif isinstance(n, ast.Call) and isinstance(n.func, ast.Attribute) and n.func.attr in _LIST_GROW and _root_name(n.func.value) in live:
+            roots.extend(n.args)
+            roots.extend(k.value for k in n.keywords)
+        elif isinstance(n, (ast.For, ast.AsyncFor)) and set(_target_names(n.target)) & live:
+            roots.append(n.iter)
+    return roots
+
+
+def _simple_call_name(c: ast.Call) -> Optional[str]:
+    f = c.func
+    return f.attr if isinstance(f, ast.Attribute) else f.id if isinstance(f, ast.Name) else None
+
+
+def absence_sentinel_rule(repo: Repo, R: Report) -> None:
+    """The required-key set behind the missing-key gate is built from `inspect_origin(...) == "required"`, which
+    is decided by an *identity* test against a module-level `object()` sentinel stored in the parameter
+    descriptions of the processor's metadata ("no default").  A plain `object()` does not survive a deep copy
+    (copy.deepcopy / dataclasses.asdict / a pickle round trip return a *new* object), so a deep copy anywhere on
+    the way from the place that writes the sentinel to the identity test turns every default-less parameter
+    into one "with a default": the key leaves required_context_keys, `missing` is empty, and the CLI executes a
+    configuration whose required key was never supplied."""
+    from ..engine import enclosing_class, enclosing_function, parent, qualname_of
+
+    r = R.rule("C17-D4-absence-sentinel-survives-copies", "the 'no default' marker the required-key analysis tests by identity (`is <module-level object() sentinel>`) reaches that test as the same object: no function that hands on values holding it (parameter descriptions, component metadata and whatever is derived from them by returned-value flow) passes them through a deep copy (copy.deepcopy, dataclasses.asdict / astuple, pickle round trip) - a deep copy of a plain object() is a different object, the parameter then counts as defaulted and its key vanishes from inspection.required_context_keys", 1)
+    bmod = repo.module(BUILDER)
+    clo = _closure(repo, [(bmod, repo.func(BUILDER, "build_pipeline_inspection"))])
+    clo_ids = set(clo)
+    # 1. identity tests of the analysis against plain object() sentinels
+    sentinels: Dict[Tuple[str, str], Tuple[object, ast.AST]] = {}
+    tests: List[Tuple[object, ast.AST, ast.AST, Tuple[str, str]]] = []
+    for _id, (m, node, _path) in clo.items():
+        for c in walk_no_nested(node):
+            if isinstance(c, ast.Compare) and len(c.ops) == 1 and isinstance(c.ops[0], (ast.Is, ast.IsNot)):
+                for side in (c.left, c.comparators[0]):
+                    if isinstance(side, ast.Name):
+                        mc = _module_constant(repo, m, side.id)
+                        if mc is not None and _is_plain_object_sentinel(mc[1]):
+                            key = (mc[0].rel, [t.id for t in (mc[1].targets if isinstance(mc[1], ast.Assign) else [mc[1].target]) if isinstance(t, ast.Name)][0])
+                            sentinels[key] = mc
+                            tests.append((m, node, c, key))
+    if not tests:
+        R.ok(r, BUILDER, "build_pipeline_inspection", "(the required-key analysis uses no identity-compared object() sentinel)", "", 0)
+        return
+    # 2. who hands the sentinel on: by-value uses, then returned-value flow by simple name
+    carriers: Dict[str, str] = {}
+    funcs = [(m, qn, node) for m, qn, node in repo.all_functions()]
+    sentinel_names = {k[1] for k in sentinels}
+    for m in repo.modules.values():
+        if not any(sn in m.source for sn in sentinel_names):
+            continue  # an alias import still spells the original name
+        local = {nm for nm in {x.id for x in ast.walk(m.tree) if isinstance(x, ast.Name)} if (mc := _module_constant(repo, m, nm)) is not None and any(mc[1] is s[1] for s in sentinels.values())}
+        if not local:
+            continue
+        for x in ast.walk(m.tree):
+            if not (isinstance(x, ast.Name) and x.id in local and isinstance(x.ctx, ast.Load)):
+                continue
+            p = parent(x)
+            if isinstance(p, ast.Compare) and len(p.ops) == 1 and isinstance(p.ops[0], (ast.Is, ast.IsNot)):
+                continue
+            ef = enclosing_function(x)
+            ec = enclosing_class(x)
+            if ef is not None:
+                carriers.setdefault(ef.name, f"{m.rel}:{qualname_of(ef)} uses the sentinel as a value")
+            elif ec is not None:
+                carriers.setdefault(ec.name, f"{m.rel}: class {ec.name} has a field defaulting to the sentinel")
+    call_names: Dict[int, Set[str]] = {id(node): set() for _m, _qn, node in funcs}
+    copier_calls: Dict[int, List[ast.Call]] = {}
+    for m in repo.modules.values():  # one pass per module: calls by their (innermost) enclosing function
+        for c in ast.walk(m.tree):
+            if isinstance(c, ast.Call):
+                nm = _simple_call_name(c)
+                ef = enclosing_function(c)
+                if nm and ef is not None and id(ef) in call_names:
+                    call_names[id(ef)].add(nm)
+                    if nm in _DEEP_COPIERS and c.args:
+                        copier_calls.setdefault(id(ef), []).append(c)
+    roots_cache: Dict[int, List[ast.AST]] = {}
+    changed = True
+    while changed:
+        changed = False
+        for m, qn, node in funcs:
+            if node.name in carriers or not (call_names[id(node)] & set(carriers)):
+                continue
+            roots = roots_cache.setdefault(id(node), _value_roots(node))
+            hit = next((c for rt in roots for c in ast.walk(rt) if isinstance(c, ast.Call) and _simple_call_name(c) in carriers), None)
+            if hit is not None:
+                carriers[node.name] = f"{m.rel}:{qn} returns what {_simple_call_name(hit)}(...) gives"
+                changed = True
+    # 3. deep copies of such values
+    n_sites = 0
+    for m, qn, node in funcs:
+        copies = [c for c in copier_calls.get(id(node), []) if (_simple_call_name(c) != "loads" or (isinstance(c.func, ast.Attribute) and (dotted_name(c.func.value) or "").split(".")[-1] in ("pickle", "cPickle", "dill", "cloudpickle")))]
+        if not copies:
+            continue
+        in_flow = node.name in carriers or id(node) in clo_ids
+        for c in copies:
+            arg = c.args[0]
+            live = _run_flow(node, [arg])
+            exprs: List[ast.AST] = [arg]
+            for n in walk_no_nested(node):
+                if isinstance(n, (ast.Assign, ast.AnnAssign)) and n.value is not None:
+                    tgts = n.targets if isinstance(n, ast.Assign) else [n.target]
+                    if any(set(_target_names(t)) & live for t in tgts):
+                        exprs.append(n.value)
+                elif isinstance(n, (ast.For, ast.AsyncFor)) and set(_target_names(n.target)) & live:
+                    exprs.append(n.iter)
+            src = next((k for e in exprs for k in ast.walk(e) if isinstance(k, ast.Call) and k is not c and _simple_call_name(k) in carriers), None)
+            if src is None:
+                continue
+            roots = roots_cache.setdefault(id(node), _value_roots(node))
+            returned = any(k is c for rt in roots for k in ast.walk(rt))
+            if not (returned or id(node) in clo_ids):
+                continue
+            n_sites += 1
+            sname = sorted(k[1] for k in sentinels)[0]
+            t_m, t_fn, t_c, _k = tests[0]
+            R.violation(r, m.rel, qn, norm(stmt_of(c))[:110], f"`{norm(c)[:80]}` deep-copies a value that comes from `{_simple_call_name(src)}(...)` ({carriers[_simple_call_name(src)]}) and hands the copy on: the `{sname} = object()` marker inside it ('this parameter has no default') is replaced by a fresh object, so the identity test `{norm(t_c)[:50]}` in {qualname_of(t_fn)} ({t_m.rel}) no longer recognises it - a default-less parameter is classified 'default' instead of 'required', its key is missing from inspection.required_context_keys, `missing` in `_run` stays empty when the key is not supplied, and the configuration is executed (nodes in front run, sink output and trace are written) instead of being rejected with EXIT_CONFIG_ERROR", c.lineno)
+    for t_m, t_fn, t_c, key in tests:
+        R.ok(r, t_m.rel, qualname_of(t_fn), f"{norm(t_c)[:70]}: the marker arrives uncopied", "", t_c.lineno)
+
+
+# ---------------------------------------------------------------------------------------------
+# D4 (round 5): a template the construction-time check accepts is one str.format can render
+# ---------------------------------------------------------------------------------------------
+def _regex_source(repo: Repo, mod, e: ast.AST) -> Optional[str]:
+    """The pattern text of a compiled-regex expression: `re.compile("...")` or a module-level name bound to one."""
+    if isinstance(e, ast.Call) and (call_name(e) or "").split(".")[-1] == "compile" and e.args and isinstance(e.args[0], ast.Constant) and isinstance(e.args[0].value, str):
+        return e.args[0].value
+    if isinstance(e, ast.Name):
+        mc = _module_constant(repo, mod, e.id)
+        if mc is not None:
+            return _regex_source(repo, mc[0], mc[1].value)
+    return None
+
+
+def _regex_only_identifiers(pattern: str) -> Optional[str]:
+    """None when every string the pattern can match is a plain identifier-like word (letters, digits, `_`; not
+    starting with a digit); otherwise what else it admits.  Decided on the parsed pattern (alphabet of every atom
+    + the set of possible first characters), not by trying strings."""
+    try:
+        import re._parser as sre  # Python >= 3.11
+    except ImportError:  # pragma: no cover
+        import sre_parse as sre  # type: ignore
+    try:
+        tree = sre.parse(pattern)
+    except Exception as exc:
+        return f"unparsable pattern ({exc})"
+    word = set("abcdefghijklmnopqrstuvwxyzABCDEFGHIJKLMNOPQRSTUVWXYZ0123456789_")
+    digits = set("0123456789")
+
+    def atom_chars(op, av) -> Optional[Set[str]]:
+        """Characters one single-character atom admits (None: something outside the identifier alphabet)."""
+        name = str(op)
+        if name == "LITERAL":
+            return {chr(av)}
+        if name == "IN":
+            out: Set[str] = set()
+            for o, a in av:
+                on = str(o)
+                if on == "NEGATE":
+                    return None
+                if on == "LITERAL":
+                    out.add(chr(a))
+                elif on == "RANGE":
+                    if a[1] - a[0] > 512:
+                        return None
+                    out |= {chr(i) for i in range(a[0], a[1] + 1)}
+                elif on == "CATEGORY":
+                    cn = str(a)
+                    if cn == "CATEGORY_DIGIT":
+                        out |= digits
+                    elif cn == "CATEGORY_WORD":
+                        out |= word
+                    else:
+                        return None
+                else:
+                    return None
+            return out
+        return None
+
+    bad: List[str] = []
+
+    def walk(seq) -> Tuple[Set[str], bool]:
+        """(possible first characters, can match the empty string) of a sequence; records foreign characters."""
+        first: Set[str] = set()
+        nullable = True
+        for op, av in seq:
+            name = str(op)
+            if name == "AT":
+                continue
+            if name in ("MAX_REPEAT", "MIN_REPEAT", "POSSESSIVE_REPEAT"):
+                lo, _hi, sub = av
+                f, nl = walk(sub)
+                nl = nl or lo == 0
+            elif name == "SUBPATTERN":
+                f, nl = walk(av[-1])
+            elif name == "ATOMIC_GROUP":
+                f, nl = walk(av)
+            elif name == "BRANCH":
+                f, nl = set(), False
+                for alt in av[1]:
+                    f2, nl2 = walk(alt)
+                    f |= f2
+                    nl = nl or nl2
+            elif name == "CATEGORY":
+                cn = str(av)
+                if cn == "CATEGORY_DIGIT":
+                    f, nl = set(digits), False
+                elif cn == "CATEGORY_WORD":
+                    f, nl = set(word), False
+                else:
+                    bad.append(cn.replace("CATEGORY_", "\\").lower())
+                    f, nl = set(), False
+            else:
+                chars = atom_chars(op, av)
+                if chars is None:
+                    bad.append({"ANY": "any character (`.`)", "NOT_LITERAL": "a negated character", "IN": "a negated / open character class"}.get(name, name.lower()))
+                    f, nl = set(), False
+                else:
+                    foreign = sorted(chars - word)
+                    if foreign:
+                        bad.append("the character" + ("s " if len(foreign) > 1 else " ") + " ".join(repr(ch) for ch in foreign[:6]))
+                    f, nl = chars, False
+            if nullable:
+                first |= f
+            nullable = nullable and nl
+        return first, nullable
+
+    first, nullable = walk(tree)
+    if bad:
+        return "it admits " + ", ".join(dict.fromkeys(bad))
+    if first & digits:
+        return "a name may start with a digit (str.format reads that as a positional index)"
+    if nullable:
+        return "it admits the empty name"
+    return None
+
+
+def template_placeholder_rule(repo: Repo, R: Report) -> None:
+    """A `template:` node is validated when its class is built (inspection): the placeholder names taken from
+    the template become its required context keys, and at run time the node renders `template.format(**values)`
+    with exactly those names as keyword arguments.  `str.format` looks a field up as a *keyword* only when the
+    field name is a plain identifier: `{a.b}` is attribute `b` of keyword `a`, `{a[0]}` an index, `{0}` a
+    positional argument.  So the construction-time check may accept a placeholder only if it is such a plain
+    name; otherwise validation (and --validate / --dry-run) accepts a configuration whose node can never
+    render, the CLI runs it, the nodes in front execute and the run dies in the template node."""
+    from ..engine import enclosing_function, qualname_of
+    from ..normal import nfunc
+
+    r = R.rule("C17-D4-template-placeholders-renderable", "what the construction-time check of a template accepts, the render step can resolve: every field name that a function takes from `Formatter().parse(<template>)` and hands on as a placeholder (a required context key of the node, later a keyword of `<template>.format(**values)`) has passed a raising test that admits plain identifier-like names only (a full match against a pattern whose alphabet is letters, digits and `_`, not starting with a digit, or str.isidentifier) - `.` / `[` in a field name mean attribute / index access to str.format, a leading digit a positional argument", 1)
+    n_sites = 0
+    for mod in repo.modules.values():
+        if "Formatter" not in mod.source or ".parse(" not in mod.source:
+            continue
+        for qn, raw_node in list(mod.defs.items()):
+            if not isinstance(raw_node, FuncNode):
+                continue
+            if not any(isinstance(c.func, ast.Attribute) and c.func.attr == "parse" for c in calls_in(raw_node)):
+                continue
+            try:
+                node = nfunc(repo, mod.rel, qn, consts=False)  # a name test moved into a private helper is inlined
+            except Exception:
+                node = raw_node
+            loops = []
+            for lp in walk_no_nested(node):
+                if not isinstance(lp, (ast.For, ast.AsyncFor)):
+                    continue
+                it = lp.iter
+                if not (isinstance(it, ast.Call) and isinstance(it.func, ast.Attribute) and it.func.attr == "parse" and len(it.args) == 1):
+                    continue
+                recv = it.func.value
+                recv_defs = [recv] if not isinstance(recv, ast.Name) else assigned_value(node, recv.id)
+                if not any(isinstance(d, ast.Call) and (call_name(d) or "").split(".")[-1] == "Formatter" for d in recv_defs):
+                    continue
+                if isinstance(lp.target, (ast.Tuple, ast.List)) and len(lp.target.elts) == 4 and isinstance(lp.target.elts[1], ast.Name):
+                    loops.append((lp, lp.target.elts[1].id, it.args[0]))
+            if not loops:
+                continue
+            # is the template rendered with str.format at all?  (callers of this function, anywhere in the package: a
+            # `.format(**...)` / `.format_map(...)` on the very expression whose placeholders were extracted)
+            callers = [f for m2 in repo.modules.values() if raw_node.name in m2.source for _q, f in m2.defs.items() if isinstance(f, FuncNode) and f is not raw_node and any(_simple_call_name(c) == raw_node.name for c in calls_in(f))]
+            rendered = False
+            for f in callers + [node]:
+                for c in calls_in(f, include_nested=True):
+                    if isinstance(c.func, ast.Attribute) and c.func.attr in ("format", "format_map") and (any(k.arg is None for k in c.keywords) or c.func.attr == "format_map") and not isinstance(c.func.value, ast.Constant):
+                        rendered = True
+            repo.consulted.add(mod.rel)
+            g = CFG(node, may_raise=lambda part: set())
+            for lp, FN, tmpl in loops:
+                heads = g.nodes_for(lp)
+                if len(heads) != 1:
+                    raise AnalysisError(f"{qn}: the loop over Formatter().parse(...) was not found in the control-flow graph")
+                # statements that hand the field name on: container growth / yield with the name as (part of) the value
+                sinks = []
+                for n in walk_no_nested(lp):
+                    if isinstance(n, ast.Call) and isinstance(n.func, ast.Attribute) and n.func.attr in ("append", "add", "extend", "insert", "setdefault") and any(FN in _loads(a) for a in n.args):
+                        # `seen.add(name)` only feeds the duplicate test; a sink is what reaches the result
+                        sinks.append(n)
+                    elif isinstance(n, (ast.Yield,)) and n.value is not None and FN in _loads(n.value):
+                        sinks.append(n)
+                    elif isinstance(n, ast.Assign) and any(isinstance(t, ast.Subscript) for t in n.targets) and FN in (_loads(n.value) | {x for t in n.targets for x in _loads(t.slice) if isinstance(t, ast.Subscript)}):
+                        sinks.append(n)
+                ret_live = _run_flow(node, [x.value for x in walk_no_nested(node) if isinstance(x, ast.Return) and x.value is not None])
+                sinks = [s for s in sinks if isinstance(s, ast.Yield) or (isinstance(s, ast.Call) and _root_name(s.func.value) in ret_live) or (isinstance(s, ast.Assign) and any(_root_name(t) in ret_live for t in s.targets))]
+                if not sinks:
+                    continue
+                why_not: List[str] = []
+
+                def safe(e: ast.AST) -> Optional[bool]:
+                    if isinstance(e, ast.Call) and isinstance(e.func, ast.Attribute):
+                        a = e.func.attr
+                        if a == "isidentifier" and dotted_name(e.func.value) == FN and not e.args:
+                            return True
+                        if a in ("fullmatch", "match") and e.args:
+                            # <compiled>.fullmatch(name) / re.fullmatch(<pattern>, name)
+                            if dotted_name(e.args[-1]) != FN:
+                                return None
+                            if len(e.args) == 2 and isinstance(e.args[0], ast.Constant) and isinstance(e.args[0].value, str):
+                                src = e.args[0].value
+                            elif len(e.args) == 2:
+                                src = _regex_source(repo, mod, e.args[0])
+                            else:
+                                src = _regex_source(repo, mod, e.func.value)
+                            if src is None:
+                                return None
+                            if a == "match" and not src.rstrip().endswith(("$", "\\Z")):
+                                why_not.append(f"`{norm(e)[:60]}` matches a prefix only")
+                                return None
+                            problem = _regex_only_identifiers(src)
+                            if problem is None:
+                                return True
+                            why_not.append(f"the pattern {src!r} of `{norm(e)[:50]}` is wider than a plain name: {problem}")
+                            return None
+                    if isinstance(e, ast.Compare) and len(e.ops) == 1 and isinstance(e.ops[0], (ast.IsNot, ast.NotEq)) and isinstance(e.comparators[0], ast.Constant) and e.comparators[0].value is None:
+                        return safe(e.left)  # `<pattern>.fullmatch(name) is not None`
+                    if isinstance(e, ast.Compare) and len(e.ops) == 1 and isinstance(e.ops[0], (ast.Is, ast.Eq)) and isinstance(e.comparators[0], ast.Constant) and e.comparators[0].value is None:
+                        v = safe(e.left)
+                        return None if v is None else (not v)
+                    return None
+
+                blocked_edges = {(n.id, lab) for n in g.nodes if n.kind in ("if", "while") and n.part is not None for lab in edges_guaranteeing(n.part, safe)}
+                body_entry = [t for t, lab in g.succ[heads[0]] if lab == "T"]
+                seen = g.reach(body_entry, blocked_edges=blocked_edges, blocked={heads[0]})
+                for s in sinks:
+                    st = stmt_of(s)
+                    ids = g.nodes_for(st)
+                    hit = [i for i in ids if i in seen]
+                    n_sites += 1
+                    if not rendered:
+                        R.ok(r, mod.rel, qn, norm(st)[:100] + " (not rendered with str.format)", "", st.lineno)
+                        continue
+                    detail = ("; " + "; ".join(dict.fromkeys(why_not))) if why_not else ""
+                    R.check(not hit, r, mod.rel, qn, norm(st)[:100], (f"the field name `{FN}` taken from `{norm(lp.iter)[:50]}` is handed on as a placeholder without having passed a test that admits plain identifier-like names only{detail}: the construction-time check (inspection / validate_pipeline, --validate, --dry-run) then accepts a template such as 'run_{{run.id}}.txt', `run.id` becomes an ordinary required context key that --context / the run space can supply, the missing-key gate passes and the CLI executes the pipeline - but `{norm(tmpl)[:30]}.format(**values)` reads `run.id` as attribute `id` of keyword `run` and raises, after the nodes in front of the template node already ran (sink output, trace file; exit 4 instead of the configuration error exit 3)" if hit else ""), st.lineno, g.path_to(seen, hit[0]) if hit else None)
+    if n_sites == 0:
+        R.ok(r, "semantiva", "<package>", "(no function extracts placeholders with string.Formatter().parse)", "", 0)
